@@ -160,9 +160,16 @@ def run_impl(inp, work):
                 for k in [k for k in tgt.keys() if k.startswith('Rpos_') or k.startswith('Rspec_')]:
                     del tgt[k]
             a2 = _args(inp, 'none')
+            inp2 = dict(inp)
+            name = inp['name'].strip().replace('-', '_')
+            pp, sp = _norm_prefix(inp['pos_prefix']), _norm_prefix(inp['spec_prefix'])
+            new = [name] + ([] if inp['reuse_pos'] else [pp + 'Indices', pp + 'Values']) + \
+                ([] if inp['reuse_spec'] else [sp + 'Indices', sp + 'Values'])
+            if len(set(new)) != len(new):          # the corrected call uses distinct names
+                inp2['pos_prefix'], inp2['spec_prefix'], inp2['name'] = 'CorrPos_', 'CorrSpec_', 'CORRECTED'
             before2 = _dump_group(grp)
-            r2 = _call(inp, grp, other, a2, data_arr)
-            out['retry'] = _result(inp, f, grp, r2, before2, _dump_group(grp), data_arr)
+            r2 = _call(inp2, grp, other, a2, data_arr)
+            out['retry'] = _result(inp2, f, grp, r2, before2, _dump_group(grp), data_arr)
         return out
     finally:
         f.close()
